@@ -9,6 +9,7 @@ file exists it writes one that, on every later load, leaves the configuration eq
 defaults'."""
 import copy
 import os
+import re
 import tomllib
 
 from sim import actors, seams
@@ -16,7 +17,7 @@ from sim.common import HarnessError, Violation, canon, digest, short
 from sim.rng import Streams, derive
 from sim.runner import Check
 
-APP = "aw-simapp"
+APPS = ["aw-simapp", "aw-server", "aw-server.testing", "aw.watcher.afk", "app v2", "aw-qt"]
 
 
 # ----------------------------------------------------------------------------- documents
@@ -83,6 +84,25 @@ def mutate_doc(r, d, depth=0):
                 d[k] = gen_scalar(r)
                 break
     return d
+
+
+_INT_LINE = re.compile(r"^([^=#\[\n]+ = )(\d+)(\s*(#.*)?)$")
+
+
+def tweak_text(r, text):
+    """The same document with the last digit of one integer value changed (same length in bytes)."""
+    if not text:
+        return None
+    lines = text.split("\n")
+    idx = [i for i, l in enumerate(lines) if _INT_LINE.match(l)]
+    if not idx:
+        return None
+    i = r.choice(idx)
+    m = _INT_LINE.match(lines[i])
+    n = m.group(2)
+    last = "1" if n[-1] == "0" else str(int(n[-1]) - 1)
+    lines[i] = m.group(1) + n[:-1] + last + m.group(3)
+    return "\n".join(lines)
 
 
 def _tstr(s):
@@ -187,9 +207,10 @@ def overlay(d, u):
 class CfgWorld:
     backend = "config"
 
-    def __init__(self, rundir, defaults):
+    def __init__(self, rundir, defaults, app="aw-simapp"):
         import collections
 
+        self.app = app
         self.rundir = rundir
         self.home = os.path.join(rundir, "home")
         self.defaults = defaults
@@ -200,7 +221,7 @@ class CfgWorld:
         seams.assert_in_scratch(self.home)
 
     def path(self):
-        return os.path.join(self.home, "config", "activitywatch", APP, APP + ".toml")
+        return os.path.join(self.home, "config", "activitywatch", self.app, self.app + ".toml")
 
     def open(self):
         seams.set_home(self.home)
@@ -224,6 +245,8 @@ class CfgWorld:
             f.write(s["text"])
         self.first_run_defaults = None
         self.probes["user_write"] += 1
+        if s.get("same_length"):
+            self.probes["user_edit_same_length"] += 1
         return {"ret": None, "exc": None}
 
     def op_user_delete(self, s):
@@ -244,7 +267,7 @@ class CfgWorld:
             with open(p, "rb") as f:
                 before = f.read()
         try:
-            ret = load_config_toml(APP, self.defaults)
+            ret = load_config_toml(self.app, self.defaults)
             exc = None
         except Exception as e:
             ret, exc = None, e
@@ -258,7 +281,7 @@ class CfgWorld:
 class C20(Check):
     prop = "C20"
     level = "exploration"
-    quick_runs = 30000
+    quick_runs = 24000
     thorough_runs = 800000
     chunk = 100
     rule = (
@@ -269,7 +292,7 @@ class C20(Check):
         "tomllib.parse(file), the file's bytes before/after, and the first-run clauses; non-trivial = a start found a user "
         "file whose keys overlap the defaults at depth >=1, or a first-run file was re-loaded; distinct = (op-kind sequence, digest of documents)"
     )
-    expected_probes = ["start_with_user_file", "start_first_run", "start_after_first_run_same_defaults", "start_after_upgrade_with_library_file", "overlap_nested", "user_only_key", "type_change", "table_vs_scalar", "user_delete", "upgrade", "upgrade_changed_leaf_checked"]
+    expected_probes = ["start_with_user_file", "start_first_run", "start_after_first_run_same_defaults", "start_after_upgrade_with_library_file", "overlap_nested", "user_only_key", "type_change", "table_vs_scalar", "user_delete", "upgrade", "upgrade_changed_leaf_checked", "user_edit_same_length"]
     assumptions = [
         "user documents are valid TOML with every value on one line (the first-run clause's own restriction; arrays of tables and multi-line values are not generated)",
         "tomllib (stdlib) is the independent reference parser",
@@ -278,7 +301,7 @@ class C20(Check):
     stub_components = ["config directory (XDG_CONFIG_HOME in scratch)", "the user and the application's start sequence (generated actors)"]
 
     def make_world(self, run, rundir):
-        return CfgWorld(rundir, run["defaults"])
+        return CfgWorld(rundir, run["defaults"], run.get("app", "aw-simapp"))
 
     def gen(self, seed, idx, tier):
         rs = Streams(derive(seed, self.prop, idx))
@@ -287,6 +310,7 @@ class C20(Check):
         defaults = emit(dd, rs["fmt"])
         steps = []
         ud = None
+        utext = None
         ur = rs["user"]
         n = r.choice([1, 2, 3, 5, 8, 12] + ([25, 50] if tier == "thorough" else []))
         sr = rs["sched"]
@@ -300,7 +324,14 @@ class C20(Check):
                     ud = mutate_doc(ur, dd) if ur.random() < 0.7 else gen_doc(ur)
                 for _k in range(ur.randrange(1, 4)):
                     ud = mutate_doc(ur, ud)
-                steps.append({"op": "user_write", "text": emit(ud, ur)})
+                utext = emit(ud, ur)
+                steps.append({"op": "user_write", "text": utext})
+            elif c < 0.76 and ud is not None:
+                # the smallest possible edit: one digit of one number changes, the file keeps its length
+                t = tweak_text(ur, utext)
+                if t is not None:
+                    utext = t
+                    steps.append({"op": "user_write", "text": utext, "same_length": True})
             elif c < 0.8:
                 steps.append({"op": "user_delete"})
                 ud = None
@@ -311,7 +342,7 @@ class C20(Check):
         steps.append({"op": "app_start"})
         if r.random() < 0.5:
             steps.append({"op": "app_start"})
-        return {"backend": "config", "defaults": defaults, "steps": steps}
+        return {"backend": "config", "defaults": defaults, "steps": steps, "app": r.choice(APPS)}
 
     def start(self, world, run):
         world.open()
